@@ -349,6 +349,7 @@ func HarnessC02Format() {
 	verifSetCwd("/")
 	verifOverride("os.ReadFile", verifC10ReadFile)
 	verifOverride("findProject", verifC10FindProject)
+	verifOverride("findProjectRoot", verifC10FindProjectRoot)
 	verifOverride("loadRepoConfig", verifC10RepoConfig)
 	verifOverride("(*ErrorFormatter).Print", verifC02Print)
 	alone, aloneStream := "", ""
@@ -448,6 +449,7 @@ func HarnessC02SharedDefect() {
 	verifSetCwd("/")
 	verifOverride("os.ReadFile", verifC10ReadFile)
 	verifOverride("findProject", verifC10FindProject)
+	verifOverride("findProjectRoot", verifC10FindProjectRoot)
 	verifOverride("loadRepoConfig", verifC10RepoConfig)
 	run := func(order []int) string {
 		l := verifLinter("", "", "")
@@ -484,6 +486,7 @@ func HarnessC02Repeat() {
 	verifSetCwd("/")
 	verifOverride("os.ReadFile", verifC10ReadFile)
 	verifOverride("findProject", verifC10FindProject)
+	verifOverride("findProjectRoot", verifC10FindProjectRoot)
 	verifOverride("loadRepoConfig", verifC10RepoConfig)
 	l := verifLinter("", "", "")
 	digest := func(errs []*Error, err error) string {
@@ -602,4 +605,8 @@ func HarnessC02Nested() {
 	verifReach("compared")
 	verifCheckf(r1 == "", "file-checked-with-another-repository's-configuration", r1)
 	verifCheckf(r1 == r2 && r3 == "", "result-depends-on-how-many-times-the-run-is-repeated", r2+" / "+r3)
+	// a fresh Linter that meets the enclosing repository first: the vendored file still belongs to
+	// the repository that actually contains it (nearest root), whatever was discovered before it
+	r4 := digest(verifLinter("", "", "").LintFiles([]string{paths[1], paths[0]}, nil))
+	verifCheckf(r4 == "", "file-of-a-nested-repository-attributed-to-the-enclosing-one", r4)
 }
